@@ -138,7 +138,7 @@ func genSpec(rt *rapid.T, pf *profile) adapt.Spec {
 		}
 		s.CB = pf.cbAlways || rapid.Bool().Draw(rt, "callback")
 		if s.CB {
-			s.Reenter = uint8(irange(rt, 0, 2, "reenter"))
+			s.Reenter = uint8(irange(rt, 0, 3, "reenter"))
 		}
 		if irange(rt, 0, 3, "janitorCfg") == 0 {
 			s.Cleanup = 10000000000
@@ -255,6 +255,17 @@ func genProgram(rt *rapid.T, pf *profile) *Program {
 			p.Pre = append(p.Pre, model.Op{K: model.CGet, Key: irange(rt, 0, p.Hot-1, "touchKey")})
 		}
 	}
+	ttls := ttlArgs
+	if isCache && irange(rt, 0, 2, "tickingClock") == 0 {
+		// time passes while calls run: tiny TTLs expire during the concurrent phase
+		p.Tick = true
+		if p.Spec.Reenter == 1 || p.Spec.Reenter == 3 {
+			// a Get from inside the callback would lazily delete entries that expired meanwhile
+			// (an un-modelled call); keep only the non-modifying re-entry
+			p.Spec.Reenter = 2
+		}
+		ttls = []int64{model.NoExpiration, model.DefaultExpiration, 1, 2, 3, 5, 8, 1, 2}
+	}
 	nthr := irange(rt, pf.thrMin, pf.thrMax, "threads")
 	for t := 0; t < nthr; t++ {
 		nops := irange(rt, 1, pf.opsMax, "nops")
@@ -301,13 +312,13 @@ func genProgram(rt *rapid.T, pf *profile) *Program {
 				o.Fn = uint8(irange(rt, 0, 3, "fn"))
 			case model.CSet, model.CGetOrSet, model.CGetAndSet, model.CGetOrCompute:
 				o.Val = val()
-				o.D = pick(rt, ttlArgs, "ttl")
+				o.D = pick(rt, ttls, "ttl")
 			case model.CCompute:
 				o.Val = val()
 				o.Fn = uint8(irange(rt, 0, 3, "fn"))
-				o.D = pick(rt, ttlArgs, "ttl")
+				o.D = pick(rt, ttls, "ttl")
 			case model.CGetAndRefresh:
-				o.D = pick(rt, ttlArgs, "ttl")
+				o.D = pick(rt, ttls, "ttl")
 			case model.CSetDefaultExp:
 				o.D = pick(rt, []int64{model.NoExpiration, 0, 25, 777}, "newDefault")
 			}
@@ -316,6 +327,9 @@ func genProgram(rt *rapid.T, pf *profile) *Program {
 			}
 			if i == 0 && p.Mode == "shrink" && (o.K == model.MCompute || o.K == model.CCompute) && o.Key == t%p.Hot {
 				o.Fn = model.FnDelete
+			}
+			if p.Tick && o.K == model.CGetTTL {
+				o.K = model.CGetExp // the remaining TTL is computed from a later clock read than the visibility decision
 			}
 			ops = append(ops, o)
 		}
